@@ -274,7 +274,10 @@ fn do_step(
         if !ok && elapsed > STATE_TRANSITION_US + TICK_US + PDU_US {
             rep.fail("c10/error-after-deadline", &format!("error returned after {elapsed} us, timeout is {STATE_TRANSITION_US} us"), &line);
         }
-        if !hard_fail && !fall && !lost_any && !stale_error && !ok {
+        // (a member scripted to refuse sets its error indication on ANY request, also one for the state it is
+        // already in: the error it then reports justifies Err(StateTransition) — false alarm met with more cases)
+        let refuses = behs.iter().any(|b| matches!(b, Beh::Refuse(_)));
+        if !hard_fail && !fall && !lost_any && !stale_error && !ok && !(refuses && tok == "statetransition") {
             rep.fail("c10/spurious-error", &format!("every member accepts ({behs:?}) but the result is {tok}"), &line);
         }
     }
@@ -591,7 +594,7 @@ fn sum_family(tier: &str, rng: &mut Rng, rep: &mut Report) {
         unsafe { w.net.recycle() };
     }
     // longer lists: random, biased towards the interesting values
-    let longer = if tier == "thorough" { 40000 } else { 3000 };
+    let longer = if tier == "thorough" { 40000 } else { 10000 };
     let mut done = 0;
     while done < longer {
         let n = rng.range(5, 16) as usize;
@@ -730,7 +733,7 @@ fn main() {
         }
         let mut rng = Rng::new(args.seed ^ 0xc10);
         sum_family(&args.tier, &mut rng, &mut rep);
-        let worlds = if args.tier == "thorough" { 6000 } else { 250 };
+        let worlds = if args.tier == "thorough" { 6000 } else { 800 };
         for _ in 0..worlds {
             tr_world(rng.next() >> 1, &mut rep, None);
         }
